@@ -78,13 +78,22 @@ def delegatedIds : List Nat := (List.range c17AtomExpectations.length).filter is
 
 /-! ## guards -/
 
+/-- All declaration sites / use sites. -/
+def c17Defs : List TmplDef := c17Groups.flatMap (·.defs)
+def c17Uses : List TmplUse := c17Groups.flatMap (·.uses)
+
+/-- Groups are indexed by name id and every site sits in the group of its name. -/
+def groupsWellFormed : Bool :=
+  c17Groups.map (·.name) == List.range c17Names.length &&
+  c17Groups.all (fun g => g.defs.all (fun d => d.name == g.name) && g.uses.all (fun u => u.name == g.name))
+
 def fileCond (id : Nat) : GF := ((c17Files[id]?).map (·.cond)).getD GF.ff
 
 /-- Guard of a use: its file is generated and the guards around the text hold. -/
 def useGuard (u : TmplUse) : GF := .and (fileCond u.file) u.guard
 
 /-- Guard of one declaration site as seen by a use: `.Options.IsEnabled` atoms count as true. -/
-def defSiteGuard (d : TmplDef) : GF := .and (fileCond d.file) (substTrue isDelegated d.guard)
+def defSiteGuard (d : TmplDef) : GF := .and (fileCond d.file) (substTrue (fun n => delegatedIds.contains n) d.guard)
 
 /-- Guard of one declaration site as it is (duplicate check). -/
 def defSiteGuardRaw (d : TmplDef) : GF := .and (fileCond d.file) d.guard
@@ -95,7 +104,10 @@ def disj : List GF → GF
   | f :: rest => .or f (disj rest)
 
 /-- The identifier is declared: some declaration site of it is generated. -/
-def defGuard (name : Nat) : GF := disj ((c17Defs.filter (fun d => d.name == name)).map defSiteGuard)
+def defGuardOf (defs : List TmplDef) : GF := disj (defs.map defSiteGuard)
+
+/-- Declaration guard of the identifier with this name id. -/
+def defGuard (name : Nat) : GF := defGuardOf (((c17Groups[name]?).map (·.defs)).getD [])
 
 def useIs (u : TmplUse) (n f t : Nat) : Bool := u.name == n && u.file == f && u.tmpl == t
 
@@ -107,33 +119,28 @@ def excluded (u : TmplUse) : Bool := isKnown u || isNotProp u
 
 def useOk (u : TmplUse) : Bool := excluded u || checkImp axioms (useGuard u) (defGuard u.name)
 
-/-- Everything at once, grouped by name so that each definition guard is built once. -/
+/-- Everything at once, group by group so that each definition guard is built once. -/
 def allUsesOk : Bool :=
-  c17Names.all (fun n =>
-    let dg := defGuard n.id
-    (c17Uses.filter (fun u => u.name == n.id)).all (fun u => excluded u || checkImp axioms (useGuard u) dg))
-
-/-- Every use names a declared identifier (so that `allUsesOk`, which goes name by name, sees every use). -/
-def usesNamed : Bool := c17Uses.all (fun u => c17Names.any (fun n => n.id == u.name))
+  c17Groups.all (fun g =>
+    let dg := defGuardOf g.defs
+    g.uses.all (fun u => excluded u || checkImp axioms (useGuard u) dg))
 
 /-- A known-inconsistent entry matches at least one use, and its valuation (`trues` and every delegated atom)
 refutes every use it matches. -/
 def knownEntryOk (k : Nat × Nat × Nat × List Nat) : Bool :=
-  let us := c17Uses.filter (fun u => useIs u k.1 k.2.1 k.2.2.1)
-  !us.isEmpty && us.all (fun u => refutes axioms (useGuard u) (defGuard u.name) (k.2.2.2 ++ delegatedIds))
+  let us := (((c17Groups[k.1]?).map (·.uses)).getD []).filter (fun u => useIs u k.1 k.2.1 k.2.2.1)
+  !us.isEmpty && us.all (fun u => refutes axioms (useGuard u) (defGuard k.1) (k.2.2.2 ++ delegatedIds))
 
 def notPropEntryOk (k : Nat × Nat × Nat) : Bool :=
-  let us := c17Uses.filter (fun u => useIs u k.1 k.2.1 k.2.2)
-  !us.isEmpty && us.all (fun u =>
-    (c17Defs.filter (fun d => d.name == u.name)).all (fun d => (atomsOf d.guard).any isLocalDef))
+  let us := (((c17Groups[k.1]?).map (·.uses)).getD []).filter (fun u => useIs u k.1 k.2.1 k.2.2)
+  !us.isEmpty && (((c17Groups[k.1]?).map (·.defs)).getD []).all (fun d => (atomsOf d.guard).any isLocalDef)
 
 def noDupGo : List GF → Bool
   | [] => true
   | g :: rest => rest.all (fun h => checkImp axioms (.and g h) GF.ff) && noDupGo rest
 
 /-- Two declaration sites of one name are never generated together. -/
-def noDuplicates : Bool :=
-  c17Names.all (fun n => noDupGo ((c17Defs.filter (fun d => d.name == n.id)).map defSiteGuardRaw))
+def noDuplicates : Bool := c17Groups.all (fun g => noDupGo (g.defs.map defSiteGuardRaw))
 
 /-- Counts for the driver: uses, consistent, known-inconsistent, not propositional, inconsistent. -/
 def counts : Nat × Nat × Nat × Nat × Nat :=
